@@ -333,6 +333,8 @@ pub struct FaultyWriter {
     pub flush_kind: std::io::ErrorKind,
     /// transient failure: the call that finds the budget exhausted fails once, later calls are accepted again
     pub once: bool,
+    /// a full sink that reports no error: `write` returns `Ok(0)` once the budget is exhausted
+    pub zero: bool,
     pub calls: usize,
 }
 
@@ -350,6 +352,9 @@ impl std::io::Write for FaultyWriter {
         }
         if let Some(b) = self.budget {
             if self.acc.len() >= b {
+                if self.zero && !buf.is_empty() {
+                    return Ok(0);
+                }
                 if self.once {
                     self.budget = None;
                 }
@@ -370,7 +375,7 @@ impl std::io::Write for FaultyWriter {
 }
 
 pub fn parse_wspec(spec: &str) -> FaultyWriter {
-    let mut w = FaultyWriter { acc: vec![], budget: None, cap: None, int_every: None, flush_fail: false, flush_kind: std::io::ErrorKind::Other, once: false, calls: 0 };
+    let mut w = FaultyWriter { acc: vec![], budget: None, cap: None, int_every: None, flush_fail: false, flush_kind: std::io::ErrorKind::Other, once: false, zero: false, calls: 0 };
     for kv in spec.split(',') {
         if let Some((k, v)) = kv.split_once('=') {
             match k {
@@ -387,6 +392,7 @@ pub fn parse_wspec(spec: &str) -> FaultyWriter {
                     };
                 }
                 "once" => w.once = v == "1",
+                "zero" => w.zero = v == "1",
                 _ => {}
             }
         }
